@@ -30,6 +30,11 @@ func runC02(c *Ctx, pr *PropertyRun) {
 	pr.Trusted = append(pr.Trusted, "golang.org/x/tools/go/ssa v0.29.0", "the interpreter's OS-call models (checker/p_fs.go)")
 	fsFaultRules(c, pr, "C02")
 	preconditionFirstRule(c, pr, "C02")
+	// "COPY and MOVE whose source and destination coincide or contain one
+	// another": the test that refuses them compares the two sanitised paths
+	// (raw names differ in spelling: /a/./b, //a) before any destructive call
+	// (shared with C01.copy-move-structure)
+	c01Structure(c, pr, "C02")
 }
 
 // preconditionFirstRule is shared by C02 and C04.
